@@ -98,7 +98,7 @@ def check_props_file(cid):
     rel = os.path.join("props", "%s.v" % cid)
     src = open(os.path.join(COQ, rel), encoding="utf-8").read()
     names = re.findall(r"^\s*Print Assumptions\s+([A-Za-z0-9_']+)\s*\.", src, re.M)
-    declared = re.findall(r"^\s*(?:Theorem|Lemma|Corollary|Example)\s+([A-Za-z0-9_']+)", src, re.M)
+    declared = re.findall(r"^\s*(?:Theorem|Lemma|Corollary)\s+([A-Za-z0-9_']+)", src, re.M)
     rc, out, err = coqc(rel)
     theorems = []
     # coqc prints, per Print Assumptions, either "Closed under the global context"
